@@ -75,6 +75,23 @@ def validate(chk, path, name, module="Trace_Lang", consts=None, fac="UStdFacR", 
              env=None, label=None, timeout=3000):
     recs = vlib.read_ndjson(path)
     res = Result()
+    # numbers of more than ~40 000 digits cost TLC minutes each (Horner over the limbs): such records are beyond the
+    # explored domain and are set aside (counted), not judged
+    def limbs(r):
+        n = 0
+        for a in r.get("apps", []) if isinstance(r, dict) else []:
+            for v in a.get("args", []) + [a.get("out", {})]:
+                n += len(v.get("n", [])) + len(v.get("d", []))
+        for v in (r.get("res", []) if isinstance(r.get("res"), list) else []):
+            if isinstance(v, dict):
+                n += len(v.get("n", [])) + len(v.get("d", []))
+        return n
+    if module in ("Trace_Lang",):
+        small = [r for r in recs if limbs(r) <= 10000]
+        if len(small) < len(recs):
+            chk.skipped(len(recs) - len(small))
+            vlib.log("[validate] %s: %d records with numbers beyond 40 000 digits set aside" % (name, len(recs) - len(small)))
+            recs = small
     res.records = len(recs)
     if not recs:
         return res
